@@ -69,7 +69,7 @@ def canon(v):
     raise TypeError("no canonical form for %r" % (v,))
 
 
-def arg_text(t, v):
+def arg_text(t, v, depth=0):
     if t == T.INT:
         return str(v)
     if t == T.BOOL:
@@ -83,11 +83,18 @@ def arg_text(t, v):
     if t == T.LIST(T.INT):
         return ",".join(str(x) for x in v) if v else "-"
     if isinstance(t, tuple) and t[0] == "list":
-        return "|".join(arg_text(t[1], x) for x in v) if v else "[]"
+        return "|".join(arg_text(t[1], x, depth) for x in v) if v else "[]"
     if isinstance(t, tuple) and t[0] == "opt":
-        return "None" if v is None else arg_text(t[1], v)
+        return "None" if v is None else arg_text(t[1], v, depth)
     if isinstance(t, tuple) and t[0] == "tuple":
-        return ";".join(arg_text(ct, c) for ct, c in zip(t[1:], v))
+        return T.TUPLE_SEPS[depth].join(arg_text(ct, c, depth + 1) for ct, c in zip(t[1:], v))
+    if isinstance(t, tuple) and t[0] == "rec":       # the field values in constructor order (translate_fn.parse_code)
+        fl = REC_FIELDS[t[1]]
+        if len(fl) == 0:
+            return "()"
+        if len(fl) == 1:
+            return arg_text(fl[0][1], v[0], depth)
+        return T.TUPLE_SEPS[depth].join(arg_text(ft, c, depth + 1) for (_p, ft, _a), c in zip(fl, v))
     raise TypeError(t)
 
 
@@ -105,6 +112,8 @@ def py_value(t, v):
         return tuple(py_value(ct, c) for ct, c in zip(t[1:], v))
     if isinstance(t, tuple) and t[0] == "list":
         return [py_value(t[1], x) for x in v]
+    if isinstance(t, tuple) and t[0] == "rec":
+        return rec_value(t[1], v)
     return v
 
 
@@ -261,6 +270,52 @@ def make_self(sp, cls, bind_vals, roots=None):
 
 def real_callable(sp, mod, path):
     """-> f(param values, bind values) running the real code of spec sp in module mod"""
+    f = _real_callable(sp, mod, path)
+
+    def run(pv, bv):
+        REC_CTX["mod"], REC_CTX["fields"] = mod, sp.rec_fields      # for record-typed parameters (py_value)
+        return f(pv, bv)
+    return run
+
+
+REC_CTX = {"mod": None, "fields": {}}
+
+
+def find_class(mod, name):
+    """the class `name` of module mod: top level, or nested in a top level class"""
+    if isinstance(getattr(mod, name, None), type):
+        return getattr(mod, name)
+    for o in vars(mod).values():
+        if isinstance(o, type) and getattr(o, "__module__", None) == mod.__name__:
+            stack = [o]
+            while stack:
+                c = stack.pop()
+                for k, v in vars(c).items():
+                    if isinstance(v, type):
+                        if k == name:
+                            return v
+                        stack.append(v)
+    return None
+
+
+def rec_value(name, vals):
+    """an instance of the record class `name` (real class of the module when it can be built from its
+    constructor parameters, else an object with the attributes)"""
+    fl = REC_CTX["fields"][name]
+    kw = {pn: py_value(t, v) for (pn, t, _a), v in zip(fl, vals)}
+    cls = find_class(REC_CTX["mod"], name) if REC_CTX["mod"] is not None else None
+    if cls is not None:
+        try:
+            return cls(**kw)
+        except Exception:      # noqa: BLE001
+            pass
+    o = types.SimpleNamespace()
+    for (pn, _t, a) in fl:
+        setattr(o, a or pn, kw[pn])
+    return o
+
+
+def _real_callable(sp, mod, path):
     parts = sp.qual.split(".")
     owner = mod
     for p in parts[:-1]:
@@ -443,6 +498,9 @@ def gen_value(rng, t, k, small=False):
         return None if k % 4 == 0 else gen_value(rng, t[1], k)
     if isinstance(t, tuple) and t[0] == "tuple":
         return tuple(gen_value(rng, ct, k if i == 0 else rng.randrange(0, 60)) for i, ct in enumerate(t[1:]))
+    if isinstance(t, tuple) and t[0] == "rec":       # a record: the tuple of its field values in constructor order
+        return tuple(gen_value(rng, ft, k if i == 0 else rng.randrange(0, 60), small)
+                     for i, (_p, ft, _a) in enumerate(REC_FIELDS[t[1]]))
     raise TypeError(t)
 
 
@@ -465,6 +523,8 @@ def small_ints(sp):
 
 
 def inputs_for(sp, rng, n):
+    REC_FIELDS.clear()
+    REC_FIELDS.update(sp.rec_fields)
     ptys = [t for _, t in sp.params]
     btys = [t for (_, _, t) in sp.binds]
     seen, out = set(), []
